@@ -478,6 +478,7 @@ func c03Gen(c int) *c03Case {
 	rnd := vRand(c)
 	cs := &c03Case{}
 	cfg := &cs.cfg
+	overlap := false // several requests in flight at the shutdown: one in retry back-off, others finishing during the drain
 	splitty := false // requests larger than max_size: split over several flushes, remainder in the partial batch
 	cfg.queue = true
 	cfg.sizer = "requests"
@@ -503,6 +504,7 @@ func c03Gen(c int) *c03Case {
 		cfg.batch = 2
 	case 5: // persistent queue
 		cfg.persistent = true
+		overlap = rnd.IntN(2) == 0
 		if rnd.IntN(3) == 0 { // sized by items: writes a size snapshot at shutdown
 			cfg.sizer = "items"
 			cfg.capacity = int64(8 + rnd.IntN(60))
@@ -549,6 +551,14 @@ func c03Gen(c int) *c03Case {
 	if rnd.IntN(4) == 0 {
 		cfg.timeout = 2 * time.Second
 	}
+	if overlap {
+		cfg.consumers = 2 + rnd.IntN(2)
+		cfg.capacity = 1000
+		cfg.retry = true
+		cfg.initial = []time.Duration{100 * time.Millisecond, time.Second}[rnd.IntN(2)]
+		cfg.maxElapsed = []time.Duration{0, 10 * time.Second}[rnd.IntN(2)]
+		cfg.timeout = 0
+	}
 	cfg.signal = []int{c03SigLogs, c03SigLogs, c03SigTraces, c03SigMetrics}[rnd.IntN(4)]
 	cfg.wrap = rnd.IntN(4) != 0
 	// actions
@@ -581,6 +591,15 @@ func c03Gen(c int) *c03Case {
 	if sd < 0 {
 		sd = 0
 	}
+	if overlap {
+		// sends close together, shutdown shortly after the last one; backend: quick retryable failures mixed with slow final outcomes
+		t = 0
+		for i := range cs.acts {
+			t += time.Duration(rnd.IntN(3)) * time.Millisecond
+			cs.acts[i].at = t
+		}
+		sd = t + time.Duration(1+rnd.IntN(400))*time.Millisecond
+	}
 	cs.acts = append(cs.acts, c03Act{at: sd, shutdown: true})
 	for i := 0; i < rnd.IntN(3); i++ { // late sends
 		cs.acts = append(cs.acts, c03Act{at: sd + c03Gaps[rnd.IntN(len(c03Gaps))], rid: nSend + 1 + i, n: 1 + rnd.IntN(4)})
@@ -592,8 +611,20 @@ func c03Gen(c int) *c03Case {
 	if splitty || cs.failSet {
 		failPct = []int{30, 60}[rnd.IntN(2)]
 	}
+	if overlap {
+		nb = 4 + rnd.IntN(8)
+	}
 	for i := 0; i < nb; i++ {
 		call := c03Call{dur: c03Durs[rnd.IntN(len(c03Durs))]}
+		if overlap {
+			if rnd.IntN(2) == 0 {
+				call = c03Call{dur: 0, outcome: 1} // fails at once: goes into back-off
+			} else {
+				call = c03Call{dur: time.Duration(1+rnd.IntN(4)) * time.Second, outcome: []int{0, 0, 2}[rnd.IntN(3)]} // slow, final outcome
+			}
+			cs.backend = append(cs.backend, call)
+			continue
+		}
 		if rnd.IntN(100) < failPct {
 			call.outcome = 1 + rnd.IntN(3)/2 // transient twice as likely as permanent
 			if splitty {
@@ -644,6 +675,13 @@ func c03Corpus() []*c03Case {
 		{cfg: c03Cfg{queue: true, persistent: true, sizer: "requests", capacity: 100, consumers: 1, batch: 2, flushTO: time.Hour, minSize: 3, maxSize: 3,
 			retry: true, initial: 10 * ms, maxElapsed: 300 * ms, wrap: true},
 			acts: []c03Act{send(0, 1, 5), sd(2 * time.Second)}, backend: []c03Call{{0, 1}, {0, 1}, {0, 1}, {0, 1}, {0, 1}, {0, 1}, {0, 1}, {0, 1}, {0, 1}, {0, 1}, {0, 1}, {0, 1}, {0, 1}, {0, 1}}},
+		// persistent queue, two consumers: request 1 sits in its retry back-off and is interrupted by the shutdown FIRST, request 2's
+		// slow export finishes (successfully) only afterwards, during the drain: request 1 must still be delivered by the next start
+		{cfg: c03Cfg{queue: true, persistent: true, sizer: "requests", capacity: 100, consumers: 2, retry: true, initial: time.Second},
+			acts: []c03Act{send(0, 1, 2), send(ms, 2, 2), sd(500 * ms)}, backend: []c03Call{{0, 1}, {3 * time.Second, 0}}},
+		// same with three consumers, the later completions are a permanent failure and a success
+		{cfg: c03Cfg{queue: true, persistent: true, sizer: "requests", capacity: 100, consumers: 3, retry: true, initial: time.Second, wrap: true, signal: c03SigTraces},
+			acts: []c03Act{send(0, 1, 1), send(ms, 2, 3), send(2*ms, 3, 2), sd(200 * ms)}, backend: []c03Call{{0, 1}, {3 * time.Second, 2}, {100 * ms + 3*time.Second, 0}}},
 		// shutdown exactly when the flush timer fires
 		{cfg: c03Cfg{queue: true, sizer: "items", capacity: 10000, consumers: 1, batch: 1, flushTO: 30 * ms, minSize: 40},
 			acts: []c03Act{send(0, 1, 3), sd(30 * ms), send(30*ms, 2, 2)}, backend: []c03Call{{5 * ms, 0}}},
@@ -937,6 +975,7 @@ type c03Verdict struct {
 	returned                                           bool
 	undrained, duplicated, lost, unrecovered           []int
 	interrupted                                        []int // persistent: items of a shutdown-interrupted flight that are not in storage
+	intrUnrec                                          []int // … that are in storage but are not delivered by the next start
 	openCalls, lateCalls                               []int
 	nontrivial                                         bool
 	early                                              []int
@@ -1062,11 +1101,14 @@ func c03Judge(cs *c03Case, run *c03Run) c03Verdict {
 				for _, x := range callIDs[e.id] {
 					if count[x] > 0 && !sto[x] {
 						v.interrupted = append(v.interrupted, x)
+					} else if count[x] > 0 && !rec[x] {
+						v.intrUnrec = append(v.intrUnrec, x)
 					}
 				}
 			}
 		}
 		sort.Ints(v.interrupted)
+		sort.Ints(v.intrUnrec)
 	}
 	for _, e := range run.evs {
 		switch e.kind {
@@ -1158,7 +1200,7 @@ func c03Emit(out *vOut, idx int, cs *c03Case, run *c03Run) {
 	if c.persistent {
 		und = v.lost
 	}
-	out.Linef("obs verdict returned=%d undrained=%s unrecovered=%s interrupted=%s dup=%s open=%s late=%s", vB(v.returned), c03Join(und), c03Join(v.unrecovered), c03Join(v.interrupted), c03Join(v.duplicated), c03Join(v.openCalls), c03Join(v.lateCalls))
+	out.Linef("obs verdict returned=%d undrained=%s unrecovered=%s interrupted=%s intrunrec=%s dup=%s open=%s late=%s", vB(v.returned), c03Join(und), c03Join(v.unrecovered), c03Join(v.interrupted), c03Join(v.intrUnrec), c03Join(v.duplicated), c03Join(v.openCalls), c03Join(v.lateCalls))
 	kind := "memory"
 	if c.persistent {
 		kind = "persistent"
@@ -1176,6 +1218,11 @@ func c03Emit(out *vOut, idx int, cs *c03Case, run *c03Run) {
 		}
 		if len(v.interrupted) > 0 {
 			out.Linef("viol sig=C03/persistent/shutdown-interrupted-item-not-stored items=%s batch=%d", c03Join(v.interrupted), c.batch)
+		}
+		if len(v.intrUnrec) > 0 {
+			// interrupted by the shutdown (not finished), its bytes are in storage, but the next start does not deliver it: the
+			// stored bookkeeping (dispatched list / indexes) no longer designates it
+			out.Linef("viol sig=C03/persistent/shutdown-interrupted-item-not-redelivered-by-next-start items=%s batch=%d", c03Join(v.intrUnrec), c.batch)
 		}
 		if len(v.unrecovered) > 0 {
 			// in storage when Shutdown returned, but the next start does not deliver it: recovery defect (property C01's domain)
